@@ -198,7 +198,8 @@ fn run(ctx: &mut Ctx) {
             let mut body = pre;
             let attr = ctx.rng.range(0, 45) as u16;
             let hidden = ctx.rng.chance(1, 4);
-            body.extend_from_slice(&wire::raw_record(attr, hidden, v, &ctx.rng.bytes_range(0, 12), true));
+            let mandatory = ctx.rng.bool();
+            body.extend_from_slice(&wire::raw_record(attr, hidden, v, &ctx.rng.bytes_range(0, 12), mandatory));
             body.extend_from_slice(&post);
             let msg = wire::control_around(&body, 1, 2, 3, 4);
             expect_single(ctx, "vendor", &msg, SOpts::STRICT, DecodeError::UnsupportedVendorId(v));
